@@ -28,8 +28,20 @@ class _StubModule(types.ModuleType):
         return _missing
 
 
+def _pprint_legacy(params, offset=0, printer=repr):
+    """sklearn.base._pprint of scikit-learn 0.24 (a function; skcompat binds the name to a module)"""
+    items = sorted(params.items())
+    return ", ".join("%s=%s" % (k, printer(v)) for k, v in items)
+
+
 def install_stubs():
     import math
+    try:
+        import sktime.forecasting.model_selection._split as _sp
+        if isinstance(getattr(_sp, "_pprint", None), types.ModuleType):
+            _sp._pprint = _pprint_legacy
+    except BaseException:
+        pass
     if not hasattr(np, "math"):
         np.math = math          # removed in numpy 2 (sktime 0.6.0 calls np.math.* in the proximity forest)
     for m in _STUBBED:
@@ -324,6 +336,11 @@ class Sentinel:
         return "<sentinel %s>" % self.tag
 
 
+def _sentinel_function(*args, **kwargs):
+    """a callable argument no constructor has any business calling"""
+    raise AssertionError("sentinel called")
+
+
 def _is_notfitted(e):
     return any(c.__name__ == "NotFittedError" for c in type(e).__mro__)
 
@@ -498,7 +515,7 @@ def _probe_class(module, name, key, table_params, do_fit=True, budget_s=20.0):
             ctor.append("skip")          # abstract by declaration (abc): cannot be instantiated at all
             continue
         worst = "S"
-        weird = [Sentinel(p.name), None, 0, "zz", -1]
+        weird = [Sentinel(p.name), None, 0, "zz", -1, _sentinel_function]
         for w in weird:
             kw = dict(required)
             kw[p.name] = w
@@ -516,8 +533,21 @@ def _probe_class(module, name, key, table_params, do_fit=True, budget_s=20.0):
                     st = "S" if got is w else "C"
                 except AttributeError:
                     st = "M"
-            if "SCMR".index(st) > "SCMR".index(worst):
+            if "SCRM".index(st) > "SCRM".index(worst):
                 worst = st
+        if worst == "S" and p.default is not p.empty:
+            # the default itself must come back unchanged
+            try:
+                with warnings.catch_warnings():
+                    warnings.simplefilter("ignore")
+                    obj = cls(**required)
+                got = getattr(obj, p.name)
+                if not (got is p.default or _equiv(got, p.default, True)):
+                    worst = "C"
+            except AttributeError:
+                worst = "M"
+            except BaseException:
+                pass
         if (name, "ctor", p.name) in COMPAT_ARTEFACTS:
             worst = "skip"
         ctor.append(worst)
@@ -566,11 +596,11 @@ def _probe_class(module, name, key, table_params, do_fit=True, budget_s=20.0):
             g1, g2 = base.get_params(deep=False), c.get_params(deep=False)
             okc = type(c) is type(base) and set(g1) == set(g2) and all(_equiv(g1[k], g2[k], False) for k in g1)
             obs["cl"] = "ok" if okc else "changed"
-            if okc:
+            if okc and obs["fresh"] == "F":
                 try:
                     obs["cl"] = "ok" if c.is_fitted is False else "fitted"
                 except BaseException as e:
-                    obs["cl"] = "ok-" + canon_err(e)
+                    obs["cl"] = "clone-is_fitted-" + canon_err(e)
         except BaseException as e:
             obs["cl"] = canon_err(e)
         try:
